@@ -48,6 +48,18 @@ class PointsTo:
         self._node = None
         self._sink_seen: set = set()
         self.changed = True
+        self.globals: dict = {}          # (module relpath, name) -> objects of a module-level container literal
+        for m in prog.modules.values():
+            if getattr(m, 'generated', False):
+                continue
+            for st in m.tree.body:
+                tg = None
+                if isinstance(st, ast.Assign) and len(st.targets) == 1 and isinstance(st.targets[0], ast.Name):
+                    tg = st.targets[0].id
+                elif isinstance(st, ast.AnnAssign) and isinstance(st.target, ast.Name) and st.value is not None:
+                    tg = st.target.id
+                if tg and isinstance(st.value, (ast.Dict, ast.List, ast.Set)):
+                    self.globals[(m.relpath, tg)] = {self._global_obj(m, st.value)}
         self.funcs = [f for f in prog.all_funcs()]
         self._collect_sinks = False
         self.rounds = 0
@@ -61,6 +73,21 @@ class PointsTo:
         self._collect_sinks = True
         for f in self.funcs:
             self._func(f)
+
+    def _global_obj(self, m, node):
+        """('G', module, line, col): a container literal evaluated once at import time, shared by the whole process"""
+        o = ('G', m.relpath, node.lineno, node.col_offset)
+        h = self.heap.setdefault(o, {})
+        if isinstance(node, ast.Dict):
+            for k, v in zip(node.keys, node.values):
+                key = k.value if isinstance(k, ast.Constant) and isinstance(k.value, str) else '*'
+                if isinstance(v, (ast.Dict, ast.List, ast.Set)):
+                    h.setdefault(key, set()).add(self._global_obj(m, v))
+        else:
+            for v in node.elts:
+                if isinstance(v, (ast.Dict, ast.List, ast.Set)):
+                    h.setdefault('*', set()).add(self._global_obj(m, v))
+        return o
 
     # ------------------------------------------------------------------ lattice helpers
     def _add(self, s: set, items) -> None:
@@ -103,6 +130,9 @@ class PointsTo:
                         out |= v
                 return out
             g = g.parent
+        gl = self.globals.get((f.module.relpath, name))
+        if gl:
+            return set(gl)
         return set()
 
     def read(self, objs, key: str) -> set:
